@@ -2,6 +2,7 @@ import Agd.Tie.TrC05
 import Agd.Lemmas.ECS
 import Agd.Lemmas.ECSHist
 import Agd.Tie.C05
+import Agd.Model.ECSWire
 /-!
 # C05 — client subnets stay private and ECS-dependent answers stay in their region
 
@@ -1183,6 +1184,210 @@ theorem fake_list_spelling_sensitive :
 /-- Non-vacuity: "A.Example." and "a.EXAMPLE." -/
 example : [65, 46, 69, 120, 46].map lowerByte = [97, 46, 101, 88, 46].map lowerByte := by decide
 
+
+/-! ## Round 4: the wire, the server around the handler, the builder
+
+`Model/ECSWire.lean`.  The structural theorems above start from decoded options (`RawECS`), from a
+handler whose one response is what the client gets, and from a handler chain that contains
+`ecscache`.  The three parts below say what the code guarantees at those three borders — and where
+the statement of the property does not hold. -/
+
+/-- RFC 7871, section 6, read on the option data alone: FAMILY 1 or 2, SOURCE PREFIX-LENGTH within
+the family's width, exactly ⌈prefix/8⌉ address octets, the bits after the prefix zero. -/
+def WireWellFormed (b : List Nat) : Prop :=
+  ∃ f0 m sc addr, b = 0 :: f0 :: m :: sc :: addr ∧ (f0 = 1 ∨ f0 = 2) ∧
+    m ≤ (if f0 = 1 then 32 else 128) ∧ addr.length = (m + 7) / 8 ∧
+    beVal addr % 2 ^ (8 * addr.length - m) = 0
+
+theorem wire_dropped_iff_unpack (b : List Nat) : wireAnswer b = .dropped ↔ unpackECS b = none := by
+  unfold wireAnswer
+  cases h : unpackECS b with
+  | none => simp
+  | some e => cases h2 : ecsData e <;> simp [h2]
+
+/-- **wire_dropped_iff.** Exactly these option data make the whole query vanish (the message does
+not unpack, `ServerBase.serveDNS` "lets the connection hang"): fewer than four octets, a family
+other than 0, 1, 2, family 0 with a non-zero prefix length, a source *or scope* prefix length
+beyond the family's width. -/
+theorem wire_dropped_iff (b : List Nat) :
+    wireAnswer b = .dropped ↔
+      (b.length < 4 ∨ ∃ f1 f0 m sc rest, b = f1 :: f0 :: m :: sc :: rest ∧
+        ((f1 * 256 + f0 = 0 ∧ m ≠ 0) ∨ (f1 * 256 + f0 = 1 ∧ (32 < m ∨ 32 < sc)) ∨
+         (f1 * 256 + f0 = 2 ∧ (128 < m ∨ 128 < sc)) ∨ 3 ≤ f1 * 256 + f0)) := by
+  rw [wire_dropped_iff_unpack]
+  match b with
+  | [] => simp [unpackECS]
+  | [_] => simp [unpackECS]
+  | [_, _] => simp [unpackECS]
+  | [_, _, _] => simp [unpackECS]
+  | f1 :: f0 :: m :: sc :: rest =>
+    simp only [unpackECS, List.length_cons]
+    constructor
+    · intro h
+      right
+      refine ⟨f1, f0, m, sc, rest, rfl, ?_⟩
+      by_cases h0 : f1 * 256 + f0 = 0
+      · simp only [h0, ↓reduceIte] at h
+        by_cases hm : m = 0
+        · simp [hm] at h
+        · exact Or.inl ⟨h0, hm⟩
+      · by_cases h1 : f1 * 256 + f0 = 1
+        · simp only [h1, ↓reduceIte] at h
+          by_cases hc : m ≤ 32 ∧ sc ≤ 32
+          · simp [hc] at h
+          · right; left; exact ⟨h1, by omega⟩
+        · by_cases h2 : f1 * 256 + f0 = 2
+          · simp only [h2, ↓reduceIte] at h
+            by_cases hc : m ≤ 128 ∧ sc ≤ 128
+            · simp [hc] at h
+            · right; right; left; exact ⟨h2, by omega⟩
+          · right; right; right; omega
+    · rintro (h | ⟨a1, a0, am, asc, ar, hb, h⟩)
+      · omega
+      · simp only [List.cons.injEq] at hb
+        obtain ⟨rfl, rfl, rfl, rfl, rfl⟩ := hb
+        rcases h with ⟨h0, hm⟩ | ⟨h1, hm⟩ | ⟨h2, hm⟩ | h3
+        · simp [h0, hm]
+        · have : ¬ (m ≤ 32 ∧ sc ≤ 32) := by omega
+          simp [h1, this]
+        · have : ¬ (m ≤ 128 ∧ sc ≤ 128) := by omega
+          simp [h2, this]
+        · have a : ¬ f1 * 256 + f0 = 0 := by omega
+          have b' : ¬ f1 * 256 + f0 = 1 := by omega
+          have c : ¬ f1 * 256 + f0 = 2 := by omega
+          rw [if_neg a, if_neg b', if_neg c]
+
+/-- **wire_formerr_iff.** FORMERR is the answer exactly when the option data decode and the decoded
+option is not `WellFormedECS`. -/
+theorem wire_formerr_iff (b : List Nat) :
+    wireAnswer b = .formerr ↔ ∃ e, unpackECS b = some e ∧ ¬ WellFormedECS e := by
+  unfold wireAnswer
+  cases h : unpackECS b with
+  | none => simp
+  | some e =>
+    have hw := ecs_validity_spec e
+    cases h2 : ecsData e with
+    | none => rw [h2] at hw; simp at hw; simp [hw, h2]
+    | some ps => rw [h2] at hw; simp at hw; simp [hw, h2]
+
+/-- **wire_malformed_dropped_counterexample** (known finding `wire-malformed-ecs-dropped`): "a
+malformed option is answered with FORMERR" does not hold on the wire — 1.2.3.4/33 is not
+well-formed and the query is not answered at all. -/
+theorem wire_malformed_dropped_counterexample :
+    ¬ (∀ b, ¬ WireWellFormed b → wireAnswer b = .formerr) := by
+  intro h
+  have h1 : ¬ WireWellFormed [0, 1, 33, 0, 1, 2, 3, 4, 5] := by
+    rintro ⟨f0, m, sc, addr, hb, hf, hm, -, -⟩
+    simp only [List.cons.injEq] at hb
+    obtain ⟨-, rfl, rfl, -, -⟩ := hb
+    simp at hm
+  have h2 := h _ h1
+  rw [wire_formerr_iff] at h2
+  obtain ⟨e, he, -⟩ := h2
+  simp [unpackECS] at he
+
+theorem padTake_length (n : Nat) (bs : List Nat) : (padTake n bs).length = n := by
+  simp [padTake]; omega
+
+theorem padTake_idem (n : Nat) (bs : List Nat) : padTake n (padTake n bs) = padTake n bs := by
+  have h := padTake_length n bs
+  have ht : (padTake n bs).take n = padTake n bs := List.take_of_length_le (by omega)
+  show (padTake n bs).take n ++ List.replicate (n - ((padTake n bs).take n).length) 0 = padTake n bs
+  rw [ht, h]
+  simp
+
+/-- **wire_address_length_lenient.** The decoder zero-fills a short address field and ignores every
+octet after the fourth (sixteenth): the answer depends on the address octets only through their
+first 4 (16), zero-filled — an address field of the wrong length is *not* answered with FORMERR
+(known finding `wire-ecs-address-length-not-checked`), and the echo carries the canonical octets, not
+the client's. -/
+theorem wire_address_length_lenient (m sc : Nat) (rest : List Nat) :
+    wireAnswer (0 :: 1 :: m :: sc :: rest) = wireAnswer (0 :: 1 :: m :: sc :: padTake 4 rest) ∧
+    wireAnswer (0 :: 2 :: m :: sc :: rest) = wireAnswer (0 :: 2 :: m :: sc :: padTake 16 rest) := by
+  simp [wireAnswer, unpackECS, padTake_idem]
+
+/-- Non-vacuity (tests on literals): 1.2.3/24 is echoed with scope 24, so are 1.2.3.0 (four octets)
+and 1.2.3.0.9.9 (six); 1.2/24 (two octets) is echoed as 1.2.0/24; 1.2.3.4/24 is FORMERR and so is
+dig's family 0; /33, scope 33, family 3 and three octets of option data vanish. -/
+example : wireAnswer [0, 1, 24, 0, 1, 2, 3] = .echo [0, 1, 24, 24, 1, 2, 3] ∧
+    wireAnswer [0, 1, 24, 0, 1, 2, 3, 0] = .echo [0, 1, 24, 24, 1, 2, 3] ∧
+    wireAnswer [0, 1, 24, 0, 1, 2, 3, 0, 9, 9] = .echo [0, 1, 24, 24, 1, 2, 3] ∧
+    wireAnswer [0, 1, 24, 0, 1, 2] = .echo [0, 1, 24, 24, 1, 2, 0] ∧
+    wireAnswer [0, 1, 24, 0, 1, 2, 3, 4] = .formerr ∧ wireAnswer [0, 0, 0, 0] = .formerr ∧
+    wireAnswer [0, 1, 33, 0, 1, 2, 3, 4, 5] = .dropped ∧ wireAnswer [0, 1, 24, 33, 1, 2, 3] = .dropped ∧
+    wireAnswer [0, 3, 24, 0, 1, 2, 3] = .dropped ∧ wireAnswer [0, 1, 0] = .dropped ∧
+    wireAnswer [0, 1, 0, 0] = .echo [0, 1, 0, 0] := by decide
+example : WireWellFormed [0, 1, 24, 0, 1, 2, 3] := ⟨1, 24, 0, [1, 2, 3], rfl, Or.inl rfl, by decide, rfl, by decide⟩
+
+/-- **formerr_then_servfail_counterexample** (fixed: `fix: ratelimitmw: do not return the ecs error
+after answering it with formerr`).  `processLocationErr` wrote the FORMERR and returned the
+`BadECSError`; the server answers an error of the handler with SERVFAIL: over DoH and DoQ the
+client of a malformed option got SERVFAIL, over plain DNS, DoT and DNSCrypt a FORMERR followed by a
+SERVFAIL. -/
+theorem formerr_then_servfail_counterexample :
+    delivered .doh (serverWrites formerrRunOld) = [.servfail] ∧
+    delivered .doq (serverWrites formerrRunOld) = [.servfail] ∧
+    delivered .udp (serverWrites formerrRunOld) = [.formerr, .servfail] ∧
+    delivered .tcp (serverWrites formerrRunOld) = [.formerr, .servfail] := by decide
+
+/-- **malformed_one_formerr_every_transport.** After the fix the client of a malformed option gets
+exactly one message, the FORMERR, on every transport. -/
+theorem malformed_one_formerr_every_transport (t : Transport) :
+    delivered t (serverWrites formerrRunNew) = [.formerr] := by
+  cases t <;> rfl
+
+/-- **answer_delivered_iff_no_error.** The general shape of the glue: a handler run that wrote
+exactly one response reaches the client as that one response, on every transport, iff the handler
+returned no error — so "the response the middleware wrote" of the structural theorems is "the
+response the client gets" only for error-free runs (`serve` returns its FORMERR, hits and upstream
+answers without an error; Tie: `formerr_returns_write_error_only`). -/
+theorem answer_delivered_iff_no_error (t : Transport) (rc : RC) (err : Bool) :
+    delivered t (serverWrites ⟨[rc], err⟩) = [rc] ↔ (err = false ∨ (rc = .servfail ∧ (t = .doh ∨ t = .doq))) := by
+  cases t <;> cases rc <;> cases err <;> decide
+
+/-- **builder_ecs_iff.** Which configurations put `ecscache` into the handler chain. -/
+theorem builder_ecs_iff (c : CacheYAML) (hv : c.valid = true) :
+    c.kind = .ecs ↔ (c.typ = 1 ∧ 0 < c.size ∧ 0 < c.ecsSize) := by
+  unfold CacheYAML.valid at hv
+  unfold CacheYAML.kind
+  simp only [Bool.and_eq_true, Bool.or_eq_true, decide_eq_true_eq, Bool.not_eq_true', Bool.and_eq_false_iff,
+    decide_eq_false_iff_not] at hv
+  obtain ⟨⟨ht, hs⟩, he⟩ := hv
+  by_cases h0 : c.size = 0
+  · simp [h0]
+  · rcases ht with ht | ht
+    · simp [h0, ht]
+    · have : ¬ c.typ = 0 := by omega
+      simp only [h0, this, ↓reduceIte, true_iff]
+      rcases he with he | he
+      · omega
+      · omega
+
+/-- **builder_upstream_private.** With `cache.type: ecs` and a non-zero `cache.size` the query that
+reaches the upstream carries exactly one ECS option, the mapped subnet. -/
+theorem builder_upstream_private (c : CacheYAML) (hk : c.kind = .ecs) (env : Env) (r : Req) (x : List OptRR)
+    (hx : upstreamExtra c.kind env r = some x) :
+    ∃ sub, mapped env r = some sub ∧ ecsOpts x = [mkECS sub 0] := by
+  rw [hk] at hx
+  simp only [upstreamExtra, Option.map_eq_some_iff] at hx
+  obtain ⟨sub, hm, rfl⟩ := hx
+  exact ⟨sub, hm, by simpa using ecsOpts_setECS r.extra sub false⟩
+
+/-- **builder_non_ecs_forwards_counterexample** (known finding
+`client-ecs-forwarded-without-ecs-cache`).  `cache.type: simple`, and `cache.type: ecs` with
+`cache.size: 0` (both pass `validate`), leave `ecscache` out of the chain: the client's own option —
+here 198.51.100.77/32 — is what the upstream receives. -/
+theorem builder_non_ecs_forwards_counterexample :
+    ∃ c : CacheYAML, c.valid = true ∧ c.typ = 1 ∧ c.kind = .none ∧
+      upstreamExtra c.kind exEnv exReq = some exReq.extra ∧
+      (⟨0, 100, 0⟩ : CacheYAML).valid = true ∧ (⟨0, 100, 0⟩ : CacheYAML).kind = .simple ∧
+      Opt.ecs ⟨1, 4, 3325256781, 32, 0⟩ ∈ ecsOpts exReq.extra :=
+  ⟨⟨1, 0, 1000⟩, by decide, rfl, by decide, by decide, by decide, by decide, by decide⟩
+
+/-- Non-vacuity: the documented production configuration. -/
+example : (⟨1, 10000, 10000⟩ : CacheYAML).valid = true ∧ (⟨1, 10000, 10000⟩ : CacheYAML).kind = .ecs ∧
+    (⟨1, 10000, 10000⟩ : CacheYAML).counts = (10000, 10000) := by decide
+
 #print axioms upstream_subnet_private
 #print axioms upstream_noninterference
 #print axioms declined_never_subnet_cache
@@ -1227,12 +1432,26 @@ example : [65, 46, 69, 120, 46].map lowerByte = [97, 46, 101, 88, 46].map lowerB
 #print axioms loc_single_source
 #print axioms normalize_case_insensitive
 #print axioms fake_list_spelling_sensitive
+#print axioms wire_dropped_iff
+#print axioms wire_formerr_iff
+#print axioms wire_malformed_dropped_counterexample
+#print axioms wire_address_length_lenient
+#print axioms formerr_then_servfail_counterexample
+#print axioms malformed_one_formerr_every_transport
+#print axioms answer_delivered_iff_no_error
+#print axioms builder_ecs_iff
+#print axioms builder_upstream_private
+#print axioms builder_non_ecs_forwards_counterexample
+#print axioms wire_dropped_iff_unpack
+#print axioms padTake_length
+#print axioms padTake_idem
 
 
 end Agd.ECS
 
 /-! Translated-source tie (Agd/Tie/TrC05.lean). -/
 #print axioms Agd.Tie.TrC05.translation_complete
+#print axioms Agd.Tie.TrC05.formerr_returns_write_error_only
 #print axioms Agd.Tie.TrC05.respIsECSDependent_tr
 #print axioms Agd.Tie.TrC05.scope_zero_independent
 #print axioms Agd.Tie.TrC05.locFromReq_tr
